@@ -165,6 +165,10 @@ var GetCmd = &cobra.Command{
 		}()
 		jm := protojson.MarshalOptions{}
 		for row := range rows {
+			if row.Id == "" {
+				//no such row
+				continue
+			}
 			if dataOnly {
 				fmt.Printf("%s\n", jm.Format(row.Data))
 			} else {
